@@ -693,6 +693,7 @@ def run(eng, rep):
                 "of rho and the parameter-table ranges of reduce_rho's factors (T1); every assignment to delta whose factors can exceed 1 is wrapped in "
                 "min(., 1e10); Controller.rhoend and solve_main's local rhoend are kept in lock-step (T4 stale copy); the diagnostic table receives exactly one "
                 "append per column per recorded iteration on every path, update_* touch only the last row, columns = documented columns (T3/T9).")
+    rep.explain("Also decided: rhoend <= rho, rho > 0 and 'rho never increases within a run' by interval reasoning over the if-chain of reduce_rho (ratio > 1 from the dominating guard of every call site) and the inclusive ranges of the parameter table, restart factor of rhoend in (0, 1] (C18-8); the bound test of done_with_current_rho is reflection-equivariant (T14, C18-6); the run counter recorded in the table counts every restart (C18-7).")
     rep.not_decided += ["'best objective never increases' (values)", "2 <= npt <= max"]
     rep.assumptions += ["rhobeg > rhoend > 0 on entry (validated by solve: C07-3 rows rhoend<=0, rhobeg<=rhoend)", "floating-point sqrt and multiplication are monotone (interval reasoning of C18-8 is over the reals)"]
     rule_delta_ge_rho(eng, rep)
